@@ -170,14 +170,19 @@ pub fn mod_n_from_hash(ha: &[u8]) -> U256 {
 
     let (sum1, carry1) = r[4].overflowing_add(z[3]);
     r[4] = sum1;
-    let t = z[4] + carry1 as u64;
-    let (sum2, carry2) = r[5].overflowing_add(t);
+    let (t, carry2a) = r[5].overflowing_add(z[4]);
+    let (sum2, carry2b) = t.overflowing_add(carry1 as u64);
     r[5] = sum2;
-    r[6] = u64::from(carry2);
+    r[6] = u64::from(carry2a || carry2b);
 
     r = u256_mul(&[r[5], r[6], 0, 0], &SM9_N_MINUS_ONE);
     h = u256_sub(&[z[0], z[1], z[2], z[3]], &[r[0], r[1], r[2], r[3]]).0;
-    h = mod_n_add(&h, &SM9_ONE);
+    // the quotient estimate can be one short: h is in [0, 2(N-1)), reduce it modulo N-1 ...
+    if u256_cmp(&h, &SM9_N_MINUS_ONE) >= 0 {
+        h = u256_sub(&h, &SM9_N_MINUS_ONE).0;
+    }
+    // ... and map [0, N-2] to [1, N-1]
+    h = u256_add(&h, &SM9_ONE).0;
     h
 }
 
